@@ -233,6 +233,39 @@ func (c *Check) escrowInventory(rule string) {
 		}
 	}
 	c.req(credit >= 1 && refund >= 2 && tax >= 1, rule, "roles", token.NoPos, fmt.Sprintf("credit ×%d, release ×%d, tax ×%d", credit, refund, tax))
+	// coins enter the request escrow only where requests are issued: an entry point (message handler or end blocker) whose
+	// effects include a committed credit of the escrow also creates request records — a deposit or any other payment
+	// routed to the escrow account is custody without an obligation
+	type ent struct {
+		name string
+		fn   *Func
+	}
+	var ents []ent
+	for _, en := range c.entries(rule) {
+		ents = append(ents, ent{en.Msg, en.Handler})
+	}
+	if eb := c.P.FuncNamed("service.EndBlocker"); eb != nil {
+		ents = append(ents, ent{"EndBlocker", eb})
+	}
+	nCred := 0
+	for _, en := range ents {
+		var cred *Eff
+		issues := false
+		for _, e := range c.P.SummaryOf(en.fn).Effs {
+			if e.Kind == "bank" && e.Op == "SendCoinsFromAccountToModule" && isModuleAccount(e.To, "RequestAccName") && e.Commit && cred == nil {
+				cred = e
+			}
+			if e.Kind == "store" && e.Op == "Set" && e.Family == "0x13" {
+				issues = true
+			}
+		}
+		if cred == nil {
+			continue
+		}
+		nCred++
+		c.req(issues, rule, effConstruct(en.name, cred)+"#credit-only-with-issue", cred.Pos, "an entry point that credits the request escrow also issues requests (creates request records)")
+	}
+	c.req(nCred >= 1, rule, "crediting-entries", token.NoPos, fmt.Sprintf("%d entry points credit the request escrow", nCred))
 }
 
 // ---------------------------------------------------------------- new-batch handler
@@ -507,4 +540,59 @@ func fromOwnParam(t *Term) bool {
 		t = stripConv(t.A[0])
 	}
 	return t.Op == "" && strings.HasPrefix(t.At, "P")
+}
+
+// issueLoopOverList: the batch-start function creates its requests for the members of the provider list it is given
+// (the eligible providers the caller has charged for), not for any other list: every request record it stores names the
+// element under the cursor of that parameter as Provider, the pending marker is keyed by the same element, and the index
+// in the request id is the position in that parameter. A loop over the context's own configured Providers issues
+// requests to providers that were filtered out (ineligible, over the fee cap) and that the consumer was not charged for.
+func (c *Check) issueLoopOverList(rule string) {
+	u := c.feeUnits(rule)
+	if u.BS == nil {
+		return
+	}
+	bs := u.BS
+	pk := ""
+	for i, pr := range bs.Params {
+		if isAddrSlice(pr.Type()) {
+			pk = fmt.Sprintf("P%d", i)
+		}
+	}
+	if pk == "" {
+		c.undecided(rule, unitConstruct(bs, "issue-loop"), bs.Body.Pos(), "the batch-start function has no provider-list parameter")
+		return
+	}
+	el := "(elem " + pk + ")"
+	n13, n14 := 0, 0
+	for _, e := range c.P.SummaryOf(bs).Effs {
+		if e.Kind != "store" || e.Op != "Set" {
+			continue
+		}
+		switch e.Family {
+		case "0x13":
+			n13++
+			prov := "?"
+			if e.Val != nil {
+				if sv := structIn(e.Val, "CompactRequest"); sv != nil {
+					prov = field("CompactRequest", "Provider", sv).String()
+				}
+			}
+			idx := false
+			e.Key.Walk(func(t *Term) bool {
+				if t.Op == "key" && len(t.A) == 1 && t.A[0].IsAt(pk) {
+					idx = true
+				}
+				return true
+			})
+			c.req(prov == el, rule, effConstruct(bs.Name, e)+"#provider", e.Pos, "the stored request names the member of the given provider list under the cursor: Provider = "+prov)
+			c.req(idx, rule, effConstruct(bs.Name, e)+"#index", e.Pos, "the index in the request id is the position in the given provider list: "+shortTerm(e.Key))
+		case "0x14":
+			n14++
+			k := keyArgs(e)
+			c.req(len(k) >= 2 && k[1].String() == el, rule, effConstruct(bs.Name, e)+"#provider", e.Pos, "the pending marker is keyed by the member of the given provider list under the cursor: "+fmtTerms(k))
+		}
+	}
+	c.Sites += n13 + n14
+	c.req(n13 >= 1 && n14 >= 1, rule, unitConstruct(bs, "issue-loop"), bs.Body.Pos(), fmt.Sprintf("request records ×%d and pending markers ×%d written by the batch-start function", n13, n14))
 }
